@@ -76,6 +76,9 @@ type knownFinding struct {
 	Description string `json:"description"`
 	Replay      string `json:"replay"`
 	Status      string `json:"status"` // "open" or "fixed: property=<id> <commit> <what failed>"
+	// Features switch on the generator features that trigger the finding (they are off in the
+	// sampled workload); used by the sampled confirmation run
+	Features string `json:"trigger_features"`
 }
 
 type tierCfg struct {
@@ -677,6 +680,20 @@ func confirmKnown(bin string, kf knownFinding) string {
 		}
 		if sig[kf.Signature] {
 			return "reproduces"
+		}
+	}
+	// a replay is a function of (tape, harness code): after a change to the generators the tape
+	// may mean another case. Before calling the finding stale, sample seeds with its triggering
+	// features switched on and look for the same signature.
+	if kf.Features != "" {
+		name := kf.Signature[strings.LastIndex(kf.Signature, ":")+1:]
+		co := runChild(bin, []string{"-sim.prop=" + kf.Property, "-sim.from=1", "-sim.count=600", "-sim.features=" + kf.Features, "-sim.finding=" + name}, 120*time.Second)
+		for _, r := range co.results {
+			for _, v := range r.Violations {
+				if v.Signature == kf.Signature {
+					return "reproduces"
+				}
+			}
 		}
 	}
 	return "stale"
